@@ -17,7 +17,9 @@ CHECKS = {
         "text": "Theorems for ALL paths: reverse_path is an involution, reverses the waypoint order, flips every switch keeping class forms and "
                 "tone fields, inverts position-wise; schedule-level reverse is an involution and f / reverse(f) yield mutually reversed paths for "
                 "an arbitrary tracer. inv() of all classes is reflected from the live code (object identity of fields) and re-checked in Coq; "
-                "reverse_path is compared on generated and traced paths; schedule level is run on the three Gen routes.",
+                "reverse_path is compared on generated and traced paths; schedule level is run on the three Gen routes. The nine inv() methods, reverse_path "
+                "and ScheduleInterpreter.reverse are ALSO translated from source on every run (harness/gen/taskgen_translate.py, fail-closed) and the "
+                "translation is proved equal to the hand model (build/C02/Gen_C02_src.v), so the laws hold of the code as written.",
         "note": NOTE_COMMON,
         "technique": "Coq proofs by list induction + reflected inv() table + vm_compute correspondence",
     },
